@@ -330,7 +330,11 @@ func checkProperty(P *Program, verifDir, prop, tier string, opts VerifyOpts) int
 			defer func() { <-sem }()
 			out := filepath.Join(outDir, fn.Name()+".json")
 			cmd := exec.Command(self, "-repo", P.repoDir, "-contracts", P.contractsDir, "-timeout", timeout, "lemma", fn.Pkg.Pkg.Path()+"."+fn.Name(), out)
-			cmd.Env = append(os.Environ(), "IKEVERIF_WORKERS=4")
+			budget := "IKEVERIF_MAXSEC=480"
+			if tier == "thorough" {
+				budget = "IKEVERIF_MAXSEC=1500"
+			}
+			cmd.Env = append(os.Environ(), "IKEVERIF_WORKERS=4", budget)
 			b, err := cmd.CombinedOutput()
 			lj := &LemmaJSON{Lemma: fn.Name(), Package: fn.Pkg.Pkg.Path()}
 			if data, rerr := os.ReadFile(out); rerr == nil {
@@ -415,6 +419,7 @@ func checkProperty(P *Program, verifDir, prop, tier string, opts VerifyOpts) int
 	aggs := map[string]*agg{}
 	var order []string
 	var unsupported, engineErrors, boundedNotes []string
+	var overBudget []*LemmaJSON
 	var solverMs int64
 	models := map[string]bool{}
 	functions := map[string]bool{}
@@ -422,7 +427,13 @@ func checkProperty(P *Program, verifDir, prop, tier string, opts VerifyOpts) int
 	solverCount := map[string]int{}
 	for _, lj := range results {
 		if lj.Error != "" {
-			engineErrors = append(engineErrors, lj.Lemma+": "+lj.Error)
+			if strings.Contains(lj.Error, "budget exceeded") {
+				// the lemma is decided well within the budget on the unchanged tree; code on
+				// which it no longer is has left what the proof covers: undecided = violation
+				overBudget = append(overBudget, lj)
+			} else {
+				engineErrors = append(engineErrors, lj.Lemma+": "+lj.Error)
+			}
 		}
 		for _, u := range lj.Unsupported {
 			unsupported = append(unsupported, lj.Lemma+": "+u)
@@ -470,6 +481,14 @@ func checkProperty(P *Program, verifDir, prop, tier string, opts VerifyOpts) int
 				}
 			}
 		}
+	}
+	for _, lj := range overBudget {
+		name := lj.Package + "." + lj.Lemma + "#budget:symbolic execution or solving exceeded the time / memory budget"
+		name = strings.Replace(name, "github.com/free5gc/ike/", "", 1)
+		a := &agg{name: name, status: "failing", solver: map[string]int{}, inst: 1, class: "budget", raw: lj.Error}
+		a.replay = &ReplayFile{Obligation: name, Status: "no-failing-input-found", Note: "the lemma function could not be decided within the budget (it is on the unchanged tree): " + lj.Error}
+		aggs[name] = a
+		order = append(order, name)
 	}
 	// extra (non-SMT) passes of the property, e.g. frame analyses
 	var extraObls []ExtraObl
